@@ -12,7 +12,9 @@ LEVEL = "exploration"
 RULE = ("Hypothesis-generated Lipschitz objectives with closed-form global minimum and Lipschitz bound (cones, "
         "absolute-value sums, linear, bowls with vertex in/outside the box, separable sines, 1-D piecewise "
         "linear), N=1..5, arbitrary boxes, r in [1.01,16], eps in (0,1), density 8..12, itersLimit 5000, a fifth of the cases first "
-        "run with a budget of 3..40 trials, after which the budget is raised and Solve is called again; a quarter with refineSolution=True; about "
+        "run with a budget of 3..40 trials, after which the budget is raised and Solve is called again (half of those on a box all of whose sides are "
+        "shorter than 1); a fifth request their first 10..100 trials in batches DoGlobalIteration(k) before Solve; one "
+        "case in twelve is a steep 1-D zigzag whose first 12..60 trials are one batch; a quarter with refineSolution=True; about "
         "1 % very long runs (a flat 1-D objective with one well narrower than 2^-13, eps a quarter of its half-width: "
         "about 32,000 trials); two "
         "classes: 'unconditional' (objective scaled so K_N*L <= r) and 'conditional' (arbitrary L, precondition "
